@@ -3,7 +3,10 @@
 spec/ref/MechOracle.tla      exact oracle on integer-coordinate grids: ExactTraction(f) = (2 mu sym(G) + lambda tr(G) I) n_f,
                              ExactBoundDisplacement(f) = u(x_f), admissible boundary-type assignments, model laws
 spec/ref/MechOracleEnum.tla  TLC enumerates (grid kind x size x variant x mu x lambda x boundary mode) and, on the exported
-                             real grids, every admissible small Neumann set; checks the oracle's laws on reference grids
+                             real grids, every admissible small Neumann set; checks the oracle's laws on reference grids.
+                             Grid kinds: "cart" (quads / hexahedra), "simplex" (triangles / tetrahedra) and "prism"
+                             (extruded triangle grids: triangular AND quadrilateral faces in one grid, so that the per-face
+                             sub-face counts of MPSA differ)
 spec/trace/J_MechOracle.tla  JudgeC13: TLC compares every face traction / boundary displacement with the oracle
 
 Python: builds the grid of every selected configuration with the porepy constructors, discretises with pp.Mpsa, applies
@@ -54,9 +57,19 @@ def execute(rec):
     return sub, M.G.export(g)
 
 
+def face_sizes(g):
+    """the node counts of the faces of an exported grid ([3, 4]: a grid with mixed face types, e.g. prisms)"""
+    return sorted({len(f) for f in g["fn"]})
+
+
+def size_of(recipe):
+    b = recipe["base"]
+    return [len(a) - 1 for a in b["axes"]] + ([len(b["zs"]) - 1] if "zs" in b else [])
+
+
 def class_key(rec, g):
     r = rec["recipe"]
-    return (r["base"]["kind"], g["dim"], len(g["cf"]), tuple(o["op"] for o in r.get("ops", [])),
+    return (r["base"]["kind"], g["dim"], len(g["cf"]), tuple(face_sizes(g)), tuple(o["op"] for o in r.get("ops", [])),
             rec["mu"], rec["lam"], min(len(rec["neu"]), 3), rec["inverter"], bool(rec.get("partition")))
 
 
@@ -66,8 +79,8 @@ def judge(ctx, recs, prefix=""):
 
     def viol(i, clause):
         r = recs[i]
-        ctx.violation(clause, dict(r, error=subs[i]["error"]),
-                      f"{prefix}{r['recipe']['base']['kind']} n={[len(a) - 1 for a in r['recipe']['base']['axes']]} "
+        ctx.violation(clause, dict(r, error=subs[i]["error"], face_sizes=face_sizes(exports[i])),
+                      f"{prefix}{r['recipe']['base']['kind']} n={size_of(r['recipe'])} "
                       f"ops={[o['op'] for o in r['recipe'].get('ops', [])]} mu={r['mu']} lam={r['lam']} neu={r['neu']} "
                       f"inverter={r['inverter']} partition={r.get('partition')} {subs[i]['error']}")
 
@@ -88,7 +101,9 @@ def plan(ctx):
         sizes = [(1, 1), (2, 1), (2, 2), (3, 2), (1, 1, 1), (2, 1, 1)]
     else:
         sizes = [(a, b) for a in (1, 2, 3) for b in (1, 2, 3)] + [(a, b, c) for a in (1, 2) for b in (1, 2) for c in (1, 2)]
-    fam = M.Family(ctx, sizes, [1, 2], [0, 1, 3], max_neu=2)
+    # triangular prisms (faces with 3 and with 4 nodes): base nx x ny squares split in triangles, 1-2 layers -> 2..8 cells
+    prisms = [(1, 1, 1), (2, 1, 2)] if q else [(1, 1, 1), (2, 1, 1), (1, 1, 2), (2, 1, 2)]
+    fam = M.Family(ctx, sizes, [1, 2], [0, 1, 3], max_neu=2, prism_sizes=prisms)
     cfgs, recipes, grids, neusets = fam.configs, fam.recipes, fam.grids, fam.neusets
     ctx.extra["configurations_enumerated"] = len(cfgs)
     ctx.extra["neumann_sets_enumerated"] = sum(len(v) for v in neusets.values())
